@@ -104,6 +104,7 @@ func (r *Report) Finish() int {
 	nObl, nDis, nCover := 0, 0, 0
 	nBoundedObl, nBoundedDis := 0, 0
 	nBoundedReplays := 0
+	nReplays := 0
 	boundedSym := map[string]string{}
 	bySolver := map[string]int{}
 	solverTime := 0.0
@@ -185,9 +186,11 @@ func (r *Report) Finish() int {
 			info := map[string]interface{}{"obligation": o.Name, "kind": o.Kind, "clause": o.Src, "status": o.Status, "solver": o.Solver,
 				"solver_output": truncate(o.Output, 4000), "smt2": o.File, "model": o.Model}
 			suffix := " no-failing-input-found"
-			if ((o.Status == "failed" && !o.Bounded) || (o.Bounded && nBoundedReplays < 3)) && !o.Cover {
+			if ((o.Status == "failed" && !o.Bounded && nReplays < 3) || (o.Bounded && nBoundedReplays < 3)) && !o.Cover {
 				if o.Bounded {
 					nBoundedReplays++
+				} else {
+					nReplays++
 				}
 				if path, ok := r.tryReplay(replayDir, o, info); ok {
 					violations = append(violations, fmt.Sprintf("VIOLATION property=%s replay=%s obligation=%s", r.Prop, path, o.Name))
